@@ -256,6 +256,32 @@ def translate_type(t, targets=("raw",), decl_first=False):
         except BaseException as e:  # noqa
             res["errors"].append({"path": [], "exc": X.exc_class(e), "msg": "_gen_c_decl: " + repr(e)[:200]})
     conf = default_conf
+    # the specialised forms are taken from the WHOLE API source of the class and its dependencies, specialised at
+    # once per target, as a context does it (anything remembered between specialisations shows here)
+    full = {}
+    if any(tg != "raw" for tg in targets):
+        try:
+            from xobjects.context import sort_classes, sources_from_classes, _concatenate_sources
+            whole, _ = _concatenate_sources(sources_from_classes(sort_classes([cls])))
+            for tg in targets:
+                if tg != "raw":
+                    full[tg] = specialize_source(whole, tg, []).split("\n")
+        except BaseException as e:  # noqa
+            res["errors"].append({"path": [], "exc": X.exc_class(e), "msg": "whole-source specialisation: " + repr(e)[:200]})
+
+    def from_whole(tg, name, src):
+        """text of function `name` inside the specialised whole source (fallback: the function specialised alone)"""
+        lines = full.get(tg)
+        if lines:
+            pat = re.compile(r"\b%s\s*\(" % re.escape(name))
+            for i, ln in enumerate(lines):
+                if pat.search(ln) and ln.rstrip().endswith("{"):
+                    for j in range(i + 1, len(lines)):
+                        if lines[j].strip() == "}":
+                            return "\n".join(lines[i:j + 1])
+                    break
+        return specialize_source(src, tg, [])
+
     for path in cls._gen_data_paths():
         try:
             methods = capi.methods_from_path(cls, path, conf)
@@ -267,7 +293,7 @@ def translate_type(t, targets=("raw",), decl_first=False):
             try:
                 variants = {}
                 for tg in targets:
-                    text = src if tg == "raw" else specialize_source(src, tg, [])
+                    text = src if tg == "raw" else from_whole(tg, kernel.c_name, src)
                     variants[tg] = parse_function(text)
                 f = variants[targets[0]]
                 entry.update(f)
